@@ -1271,7 +1271,7 @@ def audit(out: OutputBuffer, aconf: AuditConf, sshv: Optional[int] = None, print
             # One JSON document, no algorithm fields: the handshake did not get far enough to learn any.
             out.info(json.dumps({'target': '%s:%d' % (aconf.host, aconf.port), 'error': err}, sort_keys=True))
         else:
-            output(out, aconf, banner, header)
+            output(out, aconf, banner, header, print_target=print_target)
             out.fail(err)
         return exitcodes.CONNECTION_ERROR
     if sshv == 1:
@@ -1281,7 +1281,7 @@ def audit(out: OutputBuffer, aconf: AuditConf, sshv: Optional[int] = None, print
             out.fail("Failed to parse server's public key message.  Stack trace:\n%s" % str(traceback.format_exc()))
             return exitcodes.CONNECTION_ERROR
 
-        program_retval = output(out, aconf, banner, header, pkm=pkm)
+        program_retval = output(out, aconf, banner, header, pkm=pkm, print_target=print_target)
     elif sshv == 2:
         try:
             kex = SSH2_Kex.parse(out, payload)
